@@ -12,7 +12,7 @@ RULE = (
     "distinct = hash of (family, shape/state); trivial = single node"
 )
 ASSUMPTIONS = ["depth <= 150 (deeper trees hit the interpreter recursion limit in height, which is Python's, not anytree's)"]
-GATES = ["mon.C04.node", "mon.C04.common", "C04.after_mutation", "C04.height_not_last_child", "C04.cross_tree_common", "C04.after_faulted_history"]
+GATES = ["mon.C04.first_read", "mon.C04.node", "mon.C04.common", "C04.after_mutation", "C04.height_not_last_child", "C04.cross_tree_common", "C04.after_faulted_history"]
 
 
 def plan(tier, seed, jobs):
@@ -143,6 +143,23 @@ def run(ctx):
                 import random
 
                 check_universe(ctx, nodes, list(par), ch, case, util, rng=random.Random(idx))
+            if n <= 5:
+                # the order of reads must not matter: every attribute is also the *first* thing asked of a fresh tree
+                for fam in fams + ("SYMLM",):
+                    for a in ATTRS[2:]:
+                        nodes = TR.build(par, fam)
+                        idmap = {id(o): i for i, o in enumerate(nodes)}
+                        ctx.count("mon.C04.first_read")
+                        for i in reversed(range(n)):
+                            v = getattr(nodes[i], a)
+                            if isinstance(v, tuple):
+                                v = [idmap.get(id(x), "?") for x in v]
+                            elif type(v) not in (bool, int):
+                                v = idmap.get(id(v), "?")
+                            e = expected_for(par, ch, i)[a]
+                            if v != e:
+                                ctx.violation("C04/%s/first-read" % a, "navigation-definition", {"family": fam, "par": list(par), "node": i, "first_read": a}, expected={a: e}, observed={a: v})
+                                break
         ctx.exhaustive.append("all %d ordered trees with %d nodes, every node, all pairs" % (cnt, n))
     # two-tree forests for cross-tree commonancestors
     for k in (2, 3, 4):
@@ -201,7 +218,23 @@ def replay(ctx, wit):
 
     c = wit["case"]
     fam = c["family"]
-    if "history" in c:
+    if "first_read" in c:
+        par = c["par"]
+        ch = gen.children_of(par)
+        nodes = TR.build(par, fam)
+        idmap = {id(o): i for i, o in enumerate(nodes)}
+        a = c["first_read"]
+        for i in reversed(range(len(par))):
+            v = getattr(nodes[i], a)
+            if isinstance(v, tuple):
+                v = [idmap.get(id(x), "?") for x in v]
+            elif type(v) not in (bool, int):
+                v = idmap.get(id(v), "?")
+            e = expected_for(par, ch, i)[a]
+            if v != e:
+                ctx.violation("C04/%s/first-read" % a, "navigation-definition", dict(c, node=i), expected={a: e}, observed={a: v})
+                break
+    elif "history" in c:
         for nodes, par, ch in TR.replay_universe(c):
             check_universe(ctx, nodes, par, ch, c, util, rng=random.Random(0))
     elif "par" in c:
